@@ -687,12 +687,15 @@ func validateFieldMapping(predecessorType reflect.Type, successorType reflect.Ty
 	}
 
 	var (
-		predecessorFieldType, successorFieldType                         reflect.Type
 		err                                                              error
 		predecessorIntermediateInterface, successorIntermediateInterface bool
 	)
 
 	for _, mapping := range mappings {
+		// the runtime checkers built below outlive this iteration: they must capture their own copies
+		mapping := mapping
+		var predecessorFieldType, successorFieldType reflect.Type
+
 		predecessorFieldType, predecessorIntermediateInterface, err = checkAndExtractFieldType(splitFieldPath(mapping.from), predecessorType)
 		if err != nil {
 			return nil, fmt.Errorf("static check failed for mapping %s: %w", mapping, err)
